@@ -22,8 +22,10 @@ type wgOut struct {
 	Panicked bool
 }
 
-func (i wgIn) String() string  { return fmt.Sprintf("%s(%d)", i.Op, i.N) }
-func (o wgOut) String() string { return fmt.Sprintf("{live=%v num=%d panic=%v}", o.Live, o.Num, o.Panicked) }
+func (i wgIn) String() string { return fmt.Sprintf("%s(%d)", i.Op, i.N) }
+func (o wgOut) String() string {
+	return fmt.Sprintf("{live=%v num=%d panic=%v}", o.Live, o.Num, o.Panicked)
+}
 
 func wgStep(state string, in, out any) []string {
 	c, _ := strconv.Atoi(state)
